@@ -109,7 +109,8 @@ def eval_case(case):
     v = B.find(spec, main)
     plain = all((v["paths"].get(k) or "").strip("/.") and not (v["paths"].get(k) or "").endswith("/")
                 for k in (("source_packages", "source_repository") if spec["tree"]["arch"] == "src" else ("packages", "repository")))
-    if plain and "-" not in main and not spec["release"]["name"].startswith(HACK_NAMES) and spec["release"]["version"][0].isdigit():
+    if plain and "-" not in main and not spec["release"]["name"].startswith(HACK_NAMES) and spec["release"]["version"][0].isdigit() \
+            and int(spec["tree"]["build_timestamp"]) != 0:        # (the stand-in reader treats timestamp 0 as blank)
         lines = ["[general]"] + ["%s = %s" % (k, val) for k, val in sorted(g.items())]
         old = pt.TreeInfo()
         try:
